@@ -88,15 +88,19 @@ func NewDescritorFromContent(ctx context.Context, path, content string, includes
 func (opts Options) NewDesccriptorFromContent(ctx context.Context, path, content string, includes map[string]string, importDirs ...string) (*ServiceDescriptor, error) {
 
 	var pbParser protoparse.Parser
-	// add main proto to includes
-	includes[path] = content
+	// add main proto to a copy of includes (the caller's map may be nil and is not modified)
+	files := make(map[string]string, len(includes)+1)
+	for k, v := range includes {
+		files[k] = v
+	}
+	files[path] = content
 
 	ImportPaths := []string{""} // default import "" when path is absolute path, no need to join with importDirs
 	// append importDirs to ImportPaths
 	ImportPaths = append(ImportPaths, importDirs...)
 
 	pbParser.ImportPaths = ImportPaths
-	pbParser.Accessor = protoparse.FileContentsFromMap(includes)
+	pbParser.Accessor = protoparse.FileContentsFromMap(files)
 	fds, err := pbParser.ParseFiles(path)
 	if err != nil {
 		return nil, err
